@@ -10,7 +10,9 @@ PROP_MODS = ["ODataVerif.Tie.ParserTables", "ODataVerif.Props.C20"]
 
 POOL_OK = gens.VALID_FILTERS + ["a/b/c eq 1", "x/y/z/w ne null", "a/b/c/d/e eq a/b/c", "order/customer/address/city eq 'G'", "invoice/customer/address ne null",
                                 "geo.distance(a, b) lt 1", "geo.intersects(a, b)", "geo.length(a) gt 0", "contains(a, 'x')", "length(n) eq 1", "f.g(x=1, y=2, z=3)",
-                                "k/p/q/any(t: t/u/v eq 1)", "a/b/c eq a/b/c"]
+                                "k/p/q/any(t: t/u/v eq 1)", "a/b/c eq a/b/c",
+                                "status in ('new', 'open', 'held', 'done', 'void', 'open', 'new')", "id in (10, 20, 30, 40, 50, 60, 10)", "f.g(unit=0, radius=1, alpha=2, unit2=3)",
+                                "x in (a, b, c, a, geo.b, b)", "concat(concat(a, b), concat(b, a)) eq 'zz'"]
 POOL_BAD = ["a eq", "a eq 1 )", "(((", "a/b/c/d eq", "foo(1)", "distance(a, b) lt 1", "intersects(a, b)", "geo.contains(a, 'x')", "concat(1)", "substring(a)",
             "a ½", "'abc", "a eq 'x", "x/any(", "a in (1", "f.g(x=1, 2)", "a/b/c/", "not", "1 2", "now(1)", "geo.length()", "contains(a)", "a/b/c/d eq ½"]
 PROBES = POOL_OK[:60] + POOL_BAD
